@@ -83,6 +83,12 @@ def run_case(case, ctx):
         except asyncio.CancelledError:
             hist.log('coro_cancelled', uid)
             raise
+        if fail == 'cancel':
+            # the coroutine itself ends with a CancelledError nobody in edzed asked for (e.g. it
+            # awaited something that a third party cancelled): reported as cancelled, the block
+            # goes on serving
+            hist.log('coro_end', uid, 'selfcancel')
+            raise asyncio.CancelledError()
         if fail:
             hist.log('coro_end', uid, 'err')
             raise RunError(uid)
@@ -365,7 +371,10 @@ def judge(case, hist, state, ctx):
     for uid, (kind, seq, vt, data) in results.items():
         if uid in ends:
             outcome = ends[uid][2]
-            exp_kind = {'ok': 'success', 'err': 'error', 'cancelled': 'cancel'}[outcome]
+            exp_kind = {'ok': 'success', 'err': 'error', 'cancelled': 'cancel',
+                        'selfcancel': 'cancel'}[outcome]
+            if outcome == 'selfcancel':
+                ctx.count('runs_ending_with_their_own_cancellederror')
             if kind != exp_kind:
                 raise core.Violation('result-kind-mismatch',
                                      f"{where}: put {uid!r} coroutine {outcome}, reported {kind}")
@@ -432,7 +441,8 @@ def judge(case, hist, state, ctx):
             if [u for u in started if u != 'STOP'] != seq_of_arrival:
                 raise core.Violation('wait-mode-order',
                                      f"{where}: run order {started}, arrival order {seq_of_arrival}")
-            canc = [u for u, (k, *_r) in results.items() if k == 'cancel']
+            canc = [u for u, (k, *_r) in results.items() if k == 'cancel'
+                    and not (u in ends and ends[u][2] == 'selfcancel')]
             if canc:
                 raise core.Violation('wait-mode-cancelled', f"{where}: cancelled {canc}")
         else:   # cancel mode
@@ -588,6 +598,10 @@ def gen(ctx):
                 'stop': rng.choice([times[-1] + 0.25, times[-1] + 1.5, 14.0, times[0] + 0.5])}
         if rng.random() < 0.2:
             case['sync_raise'] = True
+        if guard is None and rng.random() < 0.25:
+            u = rng.randrange(len(case['puts']))
+            case['puts'][u][1] = 0.25
+            case['puts'][u][2] = 'cancel'
         if mode == 'start' and rng.random() < 0.3:
             ok_uids = [u for u, p in enumerate(case['puts']) if not p[2]]
             if ok_uids:
